@@ -14,7 +14,9 @@ import (
 	"fmt"
 	"math/big"
 	"net/netip"
+	"os"
 	"sort"
+	"strconv"
 	"strings"
 	"sync"
 	"testing"
@@ -527,7 +529,13 @@ func TestVerifC04(t *testing.T) {
 	x.leafPub[Curve_P256] = c04NewKey(Curve_P256, 0x44).pub
 	thorough := c.Thorough()
 	versions := []Version{Version1, Version2}
-	stop := func() bool { return c.OutOfTime() }
+	// the lattice may use 60% of the soft budget; the rest is kept for the nebula-cert box
+	budget := mc.Pick(c, 45.0, 900.0)
+	if f, err := strconv.ParseFloat(os.Getenv("VERIF_BUDGET_S"), 64); err == nil && f > 0 {
+		budget = f
+	}
+	latticeOut := func() bool { return c.OutOfTime() || c.Elapsed() > 0.6*budget }
+	stop := latticeOut
 
 	c.Assume("'succeeds only when' is read in one direction: a success outside the reference predicate is a violation; a refusal of a conforming, structurally valid TBS is only counted (conforming_refused) and guarded against vacuity, not reported")
 	c.Assume("an empty group / network / unsafe-network list on the CA means no restriction; 'inside' = same family, prefix at least as long, equal on the CA's prefix bits")
@@ -674,9 +682,6 @@ func TestVerifC04(t *testing.T) {
 		}
 	}
 
-	// ------------------------------------------------------------------ box 5: nebula-cert ca / sign
-	c04CLI(c, x)
-
 	// ------------------------------------------------------------------ box 1: the lattice through Sign
 	type item struct {
 		tv, cv Version
@@ -719,7 +724,7 @@ func TestVerifC04(t *testing.T) {
 					if !c04Structural(it.tv, ln, lu) {
 						continue
 					}
-					if c.OutOfTime() {
+					if latticeOut() {
 						c.Capped("box 1 time budget")
 						return
 					}
@@ -746,6 +751,9 @@ func TestVerifC04(t *testing.T) {
 	if !complete {
 		c.Capped("box 1 time budget")
 	}
+
+	// ------------------------------------------------------------------ box 5: nebula-cert ca / sign (rest of the budget)
+	c04CLI(c, x)
 
 	// ------------------------------------------------------------------ evidence
 	st := x.st
